@@ -6,6 +6,7 @@ package spynode
 // hook utx.afterMempool between ConsumeA and ConsumeB.
 
 import (
+	"os"
 	"bytes"
 	"context"
 	"crypto/sha256"
@@ -103,6 +104,7 @@ type txSt struct {
 	Canc   bool `json:"canc"`
 	Proof  bool `json:"proof"`
 	Depth  int  `json:"depth"`
+	Pst    bool `json:"pst"` // the stored proof is of a block that is not in the chain
 }
 type txC struct {
 	Pc   string `json:"pc"`
@@ -124,6 +126,8 @@ type txState struct {
 	Restarts int      `json:"restarts"`
 	Checks   int      `json:"checks"`
 	Height   int      `json:"height"`
+	Ready    bool     `json:"ready"`
+	Orphd    []int    `json:"orphd"`
 	GetTxOK  bool     `json:"gettx"` // GetTx(txid) of every delivered tx returns the delivered transaction
 }
 type txAct struct {
@@ -167,6 +171,9 @@ type txH struct {
 	restarts int
 	checks   int
 	start    bitcoin.Hash32
+	chain    []int // indexes of the processed blocks that are in the chain
+	orphd    []int
+	pending  bool  // a replacement block has been announced (after Reorg) and is awaited
 }
 
 func (h *txH) outHash(o int) bitcoin.Hash32 {
@@ -227,27 +234,33 @@ func newTxH(t *testing.T, nt int, ins [][]int, rel []bool, blk [][]int) *txH {
 		h.txs[i] = h.buildTx(i)
 		h.idOfTx[*h.txs[i].TxHash()] = i
 	}
-	prev := csGenesis()
-	for b := 1; b <= len(blk)+1; b++ {
-		hdr := wire.NewBlockHeader(1, &prev, &bitcoin.Hash32{}, 0, uint32(2000+b))
-		hdr.Timestamp = uint32(1600000000 + b)
-		mb := wire.NewMsgBlock(hdr)
-		mb.AddTransaction(csCoinbase(500 + b))
-		if b >= 2 {
-			for _, x := range blk[b-2] {
-				mb.AddTransaction(h.txs[x])
-			}
-		}
-		root, _ := mb.CalculateMerkleHash()
-		mb.Header.MerkleRoot = *root
-		h.blocks[b] = mb
-		prev = *mb.Header.BlockHash()
-	}
+	h.mkBlock(1, csGenesis())
 	h.start = *h.blocks[1].Header.BlockHash()
 	h.store = newVStore()
 	h.rec = &txRec{h: h}
 	h.boot(true)
 	return h
+}
+
+// mkBlock builds block b (1 = start block, j+1 = Blk[j]) on top of prev; blocks are built when they are needed because a
+// reorganisation decides what the parent of the next block is.
+func (h *txH) mkBlock(b int, prev bitcoin.Hash32) *wire.MsgBlock {
+	if mb, ok := h.blocks[b]; ok && mb.Header.PrevBlock == prev {
+		return mb
+	}
+	hdr := wire.NewBlockHeader(1, &prev, &bitcoin.Hash32{}, 0, uint32(2000+b))
+	hdr.Timestamp = uint32(1600000000 + b)
+	mb := wire.NewMsgBlock(hdr)
+	mb.AddTransaction(csCoinbase(500 + b))
+	if b >= 2 {
+		for _, x := range h.blk[b-2] {
+			mb.AddTransaction(h.txs[x])
+		}
+	}
+	root, _ := mb.CalculateMerkleHash()
+	mb.Header.MerkleRoot = *root
+	h.blocks[b] = mb
+	return mb
 }
 
 // boot starts a node process on the storage, synchronises it with the chain so far and leaves it in sync.
@@ -288,11 +301,21 @@ func (h *txH) drainOut() {
 // feedBlock announces, delivers and processes block b through the real handlers and ProcessBlock.
 func (h *txH) feedBlock(b int) error {
 	ctx := vCtx()
-	mb := h.blocks[b]
-	msg := wire.NewMsgHeaders()
-	hd := mb.Header
-	msg.AddBlockHeader(&hd)
-	h.n.handleMessage(ctx, msg)
+	var mb *wire.MsgBlock
+	if h.pending {
+		mb = h.blocks[b] // announced by the reorganisation
+		h.pending = false
+	} else {
+		prev := csGenesis()
+		if b > 1 {
+			prev = *h.n.blocks.LastHash()
+		}
+		mb = h.mkBlock(b, prev)
+		msg := wire.NewMsgHeaders()
+		hd := mb.Header
+		msg.AddBlockHeader(&hd)
+		h.n.handleMessage(ctx, msg)
+	}
 	h.n.handleMessage(ctx, mb)
 	blk := h.n.state.NextBlock()
 	if blk == nil {
@@ -495,16 +518,44 @@ func (h *txH) step(a txAct) (res string) {
 		if h.nblk >= len(h.blk) {
 			return "no more blocks"
 		}
+		if h.pending != !h.n.state.IsReady() {
+			return "block while out of sync without a pending replacement"
+		}
 		h.nblk++
+		h.chain = append(h.chain, h.nblk)
 		if err := h.feedBlock(h.nblk + 1); err != nil {
 			return "ProcessBlock: " + err.Error()
 		}
+	case "Reorg":
+		// a competing header for the height of the top block: the headers handler orphans the top block and requests the
+		// replacement (the next block of the universe); an empty headers message follows (the peer has nothing more)
+		if h.pending || !h.n.state.IsReady() || len(h.chain) == 0 || h.nblk >= len(h.blk) {
+			return "reorg not enabled"
+		}
+		top := h.n.blocks.LastHeight()
+		parent, err := h.n.blocks.Hash(ctx, top-1)
+		if err != nil {
+			return "parent: " + err.Error()
+		}
+		mb := h.mkBlock(h.nblk+2, *parent)
+		msg := wire.NewMsgHeaders()
+		hd := mb.Header
+		msg.AddBlockHeader(&hd)
+		h.n.handleMessage(ctx, msg)
+		h.n.handleMessage(ctx, wire.NewMsgHeaders())
+		h.drainOut()
+		if h.n.blocks.LastHeight() != top-1 {
+			return fmt.Sprintf("the top block was not reverted (height %d)", h.n.blocks.LastHeight())
+		}
+		h.orphd = append(h.orphd, h.chain[len(h.chain)-1])
+		h.chain = h.chain[:len(h.chain)-1]
+		h.pending = true
 	case "BadBlock":
 		// a block message whose body does not hash to its (unchanged) header: S = add | drop | swap | alter
 		if h.nblk >= len(h.blk) {
 			return "no more blocks"
 		}
-		good := h.blocks[h.nblk+2]
+		good := h.mkBlock(h.nblk+2, *h.n.blocks.LastHash())
 		bad := wire.NewMsgBlock(&good.Header)
 		txs := append([]*wire.MsgTx{}, good.Transactions...)
 		switch a.S {
@@ -585,7 +636,7 @@ func (h *txH) step(a txAct) (res string) {
 func (h *txH) project() txState {
 	ctx := vCtx()
 	s := txState{Mp: []txMp{}, Idx: [][]int{}, Un: []txUn{}, St: []txSt{}, Dl: []txNote{}, Q: append([]txQ{}, h.q...), C: h.c, Nblk: h.nblk, Clock: h.clock, Arr: h.arr, Restarts: h.restarts, Checks: h.checks,
-		Height: h.n.blocks.LastHeight(), GetTxOK: true}
+		Height: h.n.blocks.LastHeight(), GetTxOK: true, Ready: h.n.state.IsReady(), Orphd: append([]int{}, h.orphd...)}
 	mtxs, minputs, _ := h.n.memPool.VerifProject()
 	var un map[bitcoin.Hash32]istorage.VerifUnconfirmed
 	if h.c.Pc == "mid" || true {
@@ -613,6 +664,7 @@ func (h *txH) project() txState {
 		if ts, err := istorage.FetchTxState(ctx, h.n.store, txid); err == nil {
 			x = txSt{Has: true, Safe: ts.State.Safe, Unsafe: ts.State.UnSafe, Canc: ts.State.Cancelled,
 				Proof: ts.State.MerkleProof != nil, Depth: int(ts.State.UnconfirmedDepth)}
+			x.Pst = ts.State.MerkleProof != nil && !h.n.blocks.Contains(ts.State.MerkleProof.BlockHeader.BlockHash())
 			if got, err := h.n.GetTx(ctx, txid); err != nil || *got.TxHash() != txid {
 				s.GetTxOK = false
 			}
@@ -673,7 +725,11 @@ func TestVerifReplayTxPipeline(t *testing.T) {
 		tr.Emit(txLine{Tr: sc.ID, Act: txAct{A: "init"}, St: last, Exp: exp})
 		panicked := false
 		for _, a := range sc.Steps {
+			t0 := time.Now()
 			skip := h.step(a)
+			if d := time.Since(t0); d > 300*time.Millisecond && os.Getenv("VERIF_DEBUG") != "" {
+				fmt.Fprintf(os.Stderr, "slow step %s %v: %v\n", sc.ID, a, d)
+			}
 			if strings.HasPrefix(skip, "PANIC") {
 				// locks may still be held by the panicking call: do not touch the node again
 				tr.Emit(txLine{Tr: sc.ID, Act: a, St: last, Skip: skip, Exp: exp})
